@@ -90,6 +90,7 @@ def _find_lcas(
     lookup_stamp: Callable[[ObjectID], int],
     min_stamp: int = 0,
     shallows: set[ObjectID] | None = None,
+    remove_redundant: bool = True,
 ) -> list[ObjectID]:
     """Find lowest common ancestors between commits.
 
@@ -100,6 +101,7 @@ def _find_lcas(
         lookup_stamp: Function to get commit timestamp
         min_stamp: Minimum timestamp to consider
         shallows: Set of shallow commits
+        remove_redundant: Drop candidates that are ancestors of other candidates
 
     Returns:
         List of lowest common ancestor commit IDs
@@ -210,7 +212,43 @@ def _find_lcas(
             results.append((dt, cmt))
     results.sort(key=lambda x: x[0])
     lcas = [cmt for dt, cmt in results]
+    if remove_redundant:
+        lcas = _remove_redundant(lookup_parents, lcas, lookup_stamp, shallows)
     return lcas
+
+
+def _remove_redundant(
+    lookup_parents: Callable[[ObjectID], list[ObjectID]],
+    commits: list[ObjectID],
+    lookup_stamp: Callable[[ObjectID], int],
+    shallows: set[ObjectID] | None = None,
+) -> list[ObjectID]:
+    """Remove commits that are ancestors of other commits in the list.
+
+    The walk in _find_lcas visits commits newest first and stops as soon as
+    everything left to visit is known to be an ancestor of a candidate. When a
+    parent is not older than its child (clock skew, or equal timestamps) it
+    can stop before a candidate that was found late has marked all of its
+    ancestors, so the candidate list may contain ancestors of other
+    candidates. The walk never misses a best common ancestor, though, so
+    "c is an ancestor of one of the others" is exactly "c is a candidate for
+    (c, others)". This is the equivalent of git's remove_redundant().
+    """
+    if len(commits) <= 1:
+        return commits
+    return [
+        c
+        for c in commits
+        if c
+        not in _find_lcas(
+            lookup_parents,
+            c,
+            [o for o in commits if o != c],
+            lookup_stamp,
+            shallows=shallows,
+            remove_redundant=False,
+        )
+    ]
 
 
 # actual git sorts these based on commit times
@@ -302,8 +340,10 @@ def find_octopus_base(
                 lookup_stamp,
                 shallows=parents_provider.shallows,
             )
-            next_lcas.extend(res)
-        lcas = next_lcas[:]
+            next_lcas.extend(r for r in res if r not in next_lcas)
+        lcas = _remove_redundant(
+            lookup_parents, next_lcas, lookup_stamp, parents_provider.shallows
+        )
     return lcas
 
 
@@ -338,8 +378,10 @@ def can_fast_forward(repo: "BaseRepo", c1: ObjectID, c2: ObjectID) -> bool:
         return True
 
     # Algorithm: Find the common ancestor
+    # Note that the commit time of c1 can not be used to cut the walk short:
+    # commits between c1 and c2 may well be older than c1.
     try:
-        min_stamp = lookup_stamp(c1)
+        lookup_stamp(c1)
     except KeyError:
         # If c1 doesn't exist in the object store, we can't determine fast-forward
         # This can happen in shallow clones where c1 is a missing parent
@@ -355,7 +397,6 @@ def can_fast_forward(repo: "BaseRepo", c1: ObjectID, c2: ObjectID) -> bool:
         c1,
         [c2],
         lookup_stamp,
-        min_stamp=min_stamp,
         shallows=parents_provider.shallows,
     )
     return lcas == [c1]
